@@ -56,7 +56,7 @@ RULE = ("case 0: exhaustive bends() over offsets {-2..2}^2 minus origin x 4 x 4 
         "orthogonal visibility graph (points, flags, isConnPt, orthogVisList in list order with getDist) on which the Lean A* "
         "model is run: route() must equal the model's route exactly (equal as-coded cost suffices only where a vertex has two "
         "edges in one direction); class astar-kernels: cost() on random point triples (orthogonal connector, penalties "
-        "0/10/50/200, reverseDirectionPenalty) and ANodeCmp on (f, timeStamp) pairs around 1e-7, called directly")
+        "0/0.75/2.5/10/50/200, reverseDirectionPenalty) and ANodeCmp on (f, timeStamp) pairs around 1e-7, called directly")
 TRUSTED_BASE = ["Lean 4.33 kernel", "axioms: propext, Classical.choice, Quot.sound",
                 "cpp2lean translator + clang AST (bends() and direction helpers regenerated each run, bridge lemmas to the model; cross-checked by the correspondence)",
                 "harness (scene generator, line writer) + hex-float import",
